@@ -31,6 +31,18 @@ def load_variants() -> list[dict]:
         if fn.endswith(".json"):
             with open(os.path.join(d, fn), encoding="utf-8") as f:
                 out += json.load(f)
+    # changes contributed by independent sub-agents: /verif/seeded/<id>/patch.diff must keep firing
+    sd = os.path.join(VERIF, "seeded")
+    if os.path.isdir(sd):
+        for name in sorted(os.listdir(sd)):
+            mp = os.path.join(sd, name, "meta.json")
+            pp = os.path.join(sd, name, "patch.diff")
+            if os.path.isfile(mp) and os.path.isfile(pp):
+                with open(mp) as f:
+                    meta = json.load(f)
+                if meta.get("expect_miss"):
+                    continue
+                out.append({"id": "seed-" + name, "props": [meta.get("caught_by") or meta["property"]], "expect": "fire", "patch": pp})
     return out
 
 
@@ -38,7 +50,11 @@ def run_variant(v: dict, repo: str) -> dict:
     tmp = tempfile.mkdtemp(prefix="vsa_")
     try:
         shutil.copytree(os.path.join(repo, "mappyfile"), os.path.join(tmp, "mappyfile"), ignore=shutil.ignore_patterns("__pycache__"))
-        edits = v.get("edits") or [{"file": v["file"], "old": v["old"], "new": v["new"]}]
+        if v.get("patch"):
+            p = subprocess.run(["patch", "-p1", "-s", "-i", v["patch"]], cwd=tmp, capture_output=True, text=True)
+            if p.returncode != 0:
+                return {"id": v["id"], "status": "stale", "detail": f"patch does not apply: {p.stdout[-200:]}"}
+        edits = [] if v.get("patch") else (v.get("edits") or [{"file": v["file"], "old": v["old"], "new": v["new"]}])
         for ed in edits:
             path = os.path.join(tmp, "mappyfile", ed["file"])
             with open(path, encoding="utf-8") as f:
